@@ -1,4 +1,5 @@
 """Parent-side bookkeeping of mandoline under contract (C07, C08, C16): which boxes are handed to the workers."""
+import ast
 import z3
 from pyvc.vals import *  # noqa
 from pyvc.task import Task, FragmentTask
@@ -459,6 +460,53 @@ class PlaneCoordinates(Task):
                                                                       to_z3(a.elem((i,))) == glo[ax] + DX(lim, ax) / 2 + to_real(i) * DX(lim, ax)), "P")
 
 
+class PlateTail(FragmentTask):
+    """Mandoline.plate, the closing statements between the painted arrays and the formatter: EVERY array handed on - the requested
+    fields and, when asked for, the level map, which is the last one - is the transpose of what was painted as [x, y] (the output
+    convention is [y, x]).  Array sizes and contents symbolic; the two statements may come in either order."""
+    reach = "U"
+    qual = MM + "plate"
+    first = staticmethod(lambda s: "all_data.append(grid_level)" in ast.unparse(s))
+    last = staticmethod(lambda s: ".T" in ast.unparse(s) and "all_data" in ast.unparse(s) and not isinstance(s, ast.If))
+    unordered = True
+
+    def __init__(self, prop, do_grid):
+        self.prop, self.do_grid = prop, do_grid
+        self.name = f"plate.every-output-array-transposed[grid_level={do_grid}]"
+
+    def setup(self, ex):
+        nx, ny = z3.Int("nx"), z3.Int("ny")
+        ex.ctx.assume(z3.And(nx >= 1, ny >= 1))
+        A, G = z3.Function("PAINTED", I, I, R), z3.Function("LEVELS", I, I, R)
+        a = NDArray([nx, ny], lambda ix: A(to_z3(ix[0]), to_z3(ix[1])), "f8")
+        g = NDArray([nx, ny], lambda ix: G(to_z3(ix[0]), to_z3(ix[1])), "f8")
+        self_ = Record("amr_kitchen.mandoline.mandoline.Mandoline", do_grid=self.do_grid)
+        frame = {"self": self_, "all_data": [a]}
+        if self.do_grid:
+            frame["grid_level"] = g
+        return {"frame": frame, "A": A, "G": G, "nx": nx, "ny": ny}
+
+    def post(self, ex, inp, out):
+        ctx = ex.ctx
+        ctx.oblige("raises-nothing", out.kind == "ret", "P", note=str(out.exc) if out.kind != "ret" else "")
+        if out.kind != "ret":
+            return
+        from pyvc.ops import as_ndarray
+        ad = out.value["all_data"]
+        n = 2 if self.do_grid else 1
+        ctx.oblige("post.one-array-per-field-then-the-level-map", isinstance(ad, list) and len(ad) == n, "P")
+        if not (isinstance(ad, list) and len(ad) == n):
+            return
+        i, j = ctx.fresh("i"), ctx.fresh("j")
+        ctx.add_pc(z3.And(i >= 0, i < inp["nx"], j >= 0, j < inp["ny"]))
+        for t, F in enumerate([inp["A"], inp["G"]][:n]):
+            arr = as_ndarray(ad[t])
+            nm = "field" if t == 0 else "level-map"
+            ctx.oblige(f"post.{nm}-array-has-shape-(ny,nx)", zand(to_z3(arr.shape[0]) == inp["ny"], to_z3(arr.shape[1]) == inp["nx"]) if len(arr.shape) == 2 else False, "P")
+            if len(arr.shape) == 2:
+                ctx.oblige(f"post.{nm}-array[y,x]-is-what-was-painted-at-[x,y]", to_z3(arr.elem((j, i))) == F(i, j), "P")
+
+
 class FormatArrayOutput(Task):
     """format_array_output: the array of the t-th requested field is stored under ITS name (fields_in_slice order), 'grid_level'
     holds the last array when requested, and x / y / time / slice_pos / slice_normal / dx are the plane coordinates, the
@@ -511,7 +559,7 @@ class FormatArrayOutput(Task):
 
 def aux_tasks(prop):
     return [PlaneCoordinates(prop, 0), PlaneCoordinates(prop, 2), FormatArrayOutput(prop, [2, 0], 1), FormatArrayOutput(prop, [1, None], 0),
-            FormatArrayOutput(prop, [None], 2)]
+            FormatArrayOutput(prop, [None], 2)] + ([PlateTail(prop, True), PlateTail(prop, False)] if prop == "C08" else [])
 
 
 def aux_canaries():
